@@ -2,7 +2,7 @@
     Only statements live here; each is closed by [exact] of a lemma proved elsewhere. *)
 From Coq Require Import List ZArith Sorted.
 From Coq Require String.
-From V Require Import Gen.Params PktProt.PktNum PktProt.PktNumProofs PktProt.KeyPhase PktProt.KeyPhaseProofs PktProt.KeyDerive PktProt.KeyDeriveProofs PktProt.KeyPhaseRun PktProt.KeyPhaseWindow PktProt.KeyPhaseSys PktProt.KeyPhaseSysProofs PktProt.KeyPhaseExamples PktProt.Sha256 PktProt.InitialKeys PktProt.InitialKeysProofs PktProt.Aes PktProt.InitialProtect PktProt.InitialProtectExamples PktProt.Retry PktProt.RetryProofs PktProt.AesProofs Lib.Hex PktProt.Protect PktProt.ProtectProofs PktProt.ProtectExamples PktProt.ProtectPack PktProt.ProtectPackProofs Wire.Varint Wire.VarintProofs Wire.Headers Wire.HeadersProofs PktProt.ProtectLong PktProt.ProtectLongProofs.
+From V Require Import Gen.Params PktProt.PktNum PktProt.PktNumProofs PktProt.KeyPhase PktProt.KeyPhaseProofs PktProt.KeyDerive PktProt.KeyDeriveProofs PktProt.KeyPhaseRun PktProt.KeyPhaseWindow PktProt.KeyPhaseSys PktProt.KeyPhaseSysProofs PktProt.KeyPhaseExamples PktProt.Sha256 PktProt.InitialKeys PktProt.InitialKeysProofs PktProt.Aes PktProt.InitialProtect PktProt.InitialProtectExamples PktProt.Retry PktProt.RetryProofs PktProt.AesProofs PktProt.ChaCha PktProt.ChaChaExamples Lib.Hex PktProt.Protect PktProt.ProtectProofs PktProt.ProtectExamples PktProt.ProtectPack PktProt.ProtectPackProofs Wire.Varint Wire.VarintProofs Wire.Headers Wire.HeadersProofs PktProt.ProtectLong PktProt.ProtectLongProofs.
 Import ListNotations.
 Open Scope Z_scope.
 
@@ -403,3 +403,20 @@ Theorem C05_initial_protect_roundtrip :
     = UOk first pn (Z.of_nat pnLen) 0 payload.
 Proof. exact initial_roundtrip. Qed.
 Print Assumptions C05_initial_protect_roundtrip.
+
+(** RFC 9001 Appendix A.5 (ChaCha20-Poly1305 short header packet): key, IV, header-protection
+    key and next-generation ("quic ku") secret from the traffic secret, the ChaCha20
+    header-protection mask for the sample, the protected packet bit for bit, and its opening —
+    with ChaCha20, Poly1305 and HKDF written in Gallina, through the byte-level Protect model. *)
+Example C05_rfc9001_A5_chacha :
+  a5_key = hx "c6d98ff3441c3fe1b2182094f69caa2ed4b716b65488960a7a984979fb23e1c8" /\
+  a5_iv = hx "e0459b3474bdd0e44a41c144" /\
+  a5_hp = hx "25a282b9e82f06f21f488917a4fc8f1b73573685608597d0efcb076b0ab7a7a4" /\
+  expand_label a5_secret "quic ku" 32 = hx "1223504755036d556342ee9361d253421a826c9ecdf3c7148684b36b714881f9" /\
+  chacha_mask a5_hp (hx "5e5cd55c41f69080575d7999c25a5bfb") = hx "aefefe7d03" /\
+  protect a5_seal (chacha_mask a5_hp) false (hx "4200bff4") (hx "01") 654360564 0 3
+    = hx "4cfe4189655e5cd55c41f69080575d7999c25a5bfb" /\
+  unprotect a5_open (chacha_mask a5_hp) false 1 654360563 (hx "4cfe4189655e5cd55c41f69080575d7999c25a5bfb")
+    = UOk 66 654360564 3 0 (hx "01").
+Proof. exact rfc9001_A5. Qed.
+Print Assumptions C05_rfc9001_A5_chacha.
